@@ -14,6 +14,59 @@ CLAIMED = {
              "(exhaustive to depth 4-5 on the small universe, random to length 60).",
         technique="TLA+ spec + TLC exhaustive model checking; transition-graph replay into the code; trace validation by TLC",
         design="4/C13"),
+    "C01": dict(
+        text="TLC enumerates bounded universes of alignment instances (2-5 annotators, arbitrary pairwise tables incl. ties at "
+             "the threshold, empty annotators) and proves on them that the candidates always admit a partition; every such "
+             "instance is realised exactly in the real code (unique category per unit + precomputed matrix) and aligned under "
+             "both MIP back-ends, plus random continua (unlabelled, coincident, nested units; every built-in dissimilarity and "
+             "parameter); each returned alignment is judged by TraceAlign.tla: one slot per annotator, no foreign unit, >= 1 "
+             "real unit, every unit exactly once; any exception of the computation is a violation.",
+        note="Trusted: TLC; the encoding of units as (annotator rank, index). Instances are bounded (exhaustive small grids, "
+             "random up to 2x12 / 5x3).",
+        technique="TLA+ spec (Align/MC_Align) model-checked by TLC; TLC-enumerated instances replayed into the code; results trace-validated by TLC (TraceAlign)",
+        design="4/C01"),
+    "C02": dict(
+        text="TLC checks the pruning theorem (minimum over candidates = minimum over all tuples) on every instance of the "
+             "bounded universes, with a mutant threshold that must be rejected; the code's best alignment of each "
+             "TLC-enumerated instance must cost exactly TLC's optimum; for random continua x built-in dissimilarities "
+             "(table observed through the compiled form) optimality is decided by TLC as a reachability question: a "
+             "branch-and-bound state space over ALL alignments that reaches a complete cheaper alignment iff the claim is wrong.",
+        note="Optimality search bounded to <= 12 units per instance; float32 tolerance 8*2^-14 per tuple; both back-ends.",
+        technique="TLC model checking of the pruning theorem + TLC exhaustive search (branch-and-bound as state space) over recorded instances",
+        design="4/C02"),
+    "C03": dict(
+        text="The definition of unitary and alignment disorder is written once in Align.tla (sum over annotator pairs, "
+             "delta_empty for an empty side, divided by C(n,2); total over mean units per annotator); every alignment the "
+             "library returns (best, soft, fast) and hand-built partitions with arbitrary empty-slot patterns and slot orders, "
+             "with and without attached continuum, are recorded with carried, recomputed, single-unitary and permuted-slot "
+             "disorders and judged against it by TLC.",
+        note="Pairwise values are taken through the compiled form (C04 ties that to the formulas); soft alignments without "
+             "continuum excluded. One known finding (UnitaryAlignment.compute_disorder with an empty slot, pinned by a test).",
+        technique="TLA+ definition of disorder evaluated by TLC on recorded alignments (trace validation)",
+        design="4/C03"),
+    "C07": dict(
+        text="Enum.tla models the enumerator step by step (mixed-radix counter, filter, buffer growth by half, final slice) for "
+             "every set of passing tuples; TLC proves it yields exactly the passing tuples once each without the all-empty "
+             "one, across growth, with mutants (growth dropping an entry, slice keeping the last) rejected; MC_Align proves "
+             "the all-empty tuple always passes; the code's valid_alignments() on TLC-enumerated and random instances, and "
+             "on instances crossing the 10 000 / 15 000 / 22 500 growth boundaries, is compared by TLC with the closed form.",
+        note="Ties at the threshold within the float32 band are don't-care on observed tables; exact on dyadic tables.",
+        technique="TLC model checking of the stepwise enumerator (Enum.tla) + TLC trace validation of candidate lists",
+        design="4/C07"),
+    "C08": dict(
+        text="Every instance (TLC-enumerated and random) is aligned twice, as installed (CBC) and with cylp masked so the "
+             "library's own fallback branch runs (GLPK_MI); a probe on cvxpy.Problem.solve proves which solver ran; both "
+             "results must be partitions / covers and both must be optimal by TLC's own search (not merely equal).",
+        note="The fallback is triggered by ImportError only (a failing CBC at run time is not simulated).",
+        technique="TLC trace validation of paired runs under both solver configurations; BackendFree invariant in MC_Align",
+        design="4/C08"),
+    "C11": dict(
+        text="As C01/C02 for the soft alignment: cover instead of partition, TLC's SoftPruneSafe and SoftLE theorems on the "
+             "bounded universes, TLC's optimum for TLC-enumerated instances, exhaustive cover search for recorded ones, and "
+             "soft cost <= partition cost on every instance; both back-ends.",
+        note="Cover search bounded to <= 12 units.",
+        technique="TLC model checking (MC_Align) + TLC exhaustive cover search over recorded instances",
+        design="4/C11"),
 }
 PENDING = {}
 
